@@ -365,6 +365,7 @@ class Ctx:
         }
         for k, v in self.extra.get('coverage', {}).items():
             ev['coverage'][k] = v
+        ev['coverage']['repository'] = repo_state()
         with open(os.path.join(VERIF, 'evidence', '%s.json' % self.prop), 'w') as f:
             json.dump(ev, f, indent=1, default=str)
 
@@ -391,6 +392,18 @@ def failing_theorems(out):
             seen.add(name)
             res.append((name, msg[:400]))
     return res
+
+
+def repo_state():
+    """which tree this run looked at: path, HEAD and whether the working tree differs from HEAD (the checks read the working tree)"""
+    repo = os.environ.get('REPO', '/repo')
+    def git(*a):
+        try:
+            return subprocess.run(('git', '-C', repo) + a, capture_output=True, text=True, timeout=30).stdout.strip()
+        except Exception:
+            return ''
+    return {'path': os.path.realpath(repo), 'head': git('rev-parse', 'HEAD')[:12],
+            'working_tree_differs_from_head': bool(git('status', '--porcelain', '--untracked-files=no'))}
 
 
 def load_known():
